@@ -523,8 +523,16 @@ def nodeSuccess (c : Ctx) (s : St) (obs : List Obs) (d : DagRef) (n : Node) (bel
   cbCall c .ncomplete n s (obs ++ [.ncomplete n none]) (fun j => .node d n false (.cbOk j v) :: below)
     (fun s obs => nodePost c s obs d n below v) (fun e s obs => nodeCbRaiseInTry c s obs d n below e)
 
+/-- `run_node_default(node, **kwargs)`: `get_default` is called once, with the kwargs of the attempts.  When it raises,
+the exception leaves `__execute_node` (it is raised inside an `except` clause, or — `force_default` — the retry loop is
+not modelled for it: the generator gives no failing default to a recurrent destination) and `_execute_node` treats it
+like the node's own failure: `on_node_complete(error)`, stored in a one-of scope, raised otherwise -/
 def nodeDefault (c : Ctx) (s : St) (obs : List Obs) (d : DagRef) (n : Node) (below : List Frame) (kw : Kwargs) : Out :=
-  nodeSuccess c s (obs ++ [.dflt n kw]) d n below (c.P.dflt n kw)
+  match c.P.dfltRaise n with
+  | none => nodeSuccess c s (obs ++ [.dflt n kw]) d n below (c.P.dflt n kw)
+  | some e =>
+    if e.isException then nodeFail c s (obs ++ [.dflt n kw]) d n below e
+    else raiseOut c (nodeFinally c.P s d n true) (obs ++ [.dflt n kw]) below (.exc e)
 
 /-- `await asyncio.sleep(retry_policy.delay)` (manager.py 391) -/
 def nodeSleep (c : Ctx) (s : St) (obs : List Obs) (d : DagRef) (n : Node) (force : Bool) (below : List Frame)
